@@ -517,6 +517,22 @@ func init() {
 		File: "types.go", Old: "	for name, f := range dict {\n		ctx := f.Context()\n		v := f.cpy(context{field: ctx.field, parent: newC})\n		fields.set(name, v)\n	}\n\n	if arr != nil {\n		fields.a = make([]value, len(arr))\n		for i, f := range arr {\n			ctx := f.Context()\n			v := f.cpy(context{field: ctx.field, parent: newC})\n			fields.setAt(i, newC, v)\n		}\n	}\n", New: "	switch {\n	case len(dict) > 0:\n		for name, f := range dict {\n			ctx := f.Context()\n			v := f.cpy(context{field: ctx.field, parent: newC})\n			fields.set(name, v)\n		}\n	case arr != nil:\n		fields.a = make([]value, len(arr))\n		for i, f := range arr {\n			ctx := f.Context()\n			v := f.cpy(context{field: ctx.field, parent: newC})\n			fields.setAt(i, newC, v)\n		}\n	}\n", Expect: "R10d/"})
 	addControl(control{Prop: "C01", Name: "cpy-parts-as-alternatives", Rule: "R01f", Kind: "mutant",
 		File: "types.go", Old: "	for name, f := range dict {\n		ctx := f.Context()\n		v := f.cpy(context{field: ctx.field, parent: newC})\n		fields.set(name, v)\n	}\n\n	if arr != nil {\n		fields.a = make([]value, len(arr))\n		for i, f := range arr {\n			ctx := f.Context()\n			v := f.cpy(context{field: ctx.field, parent: newC})\n			fields.setAt(i, newC, v)\n		}\n	}\n", New: "	switch {\n	case len(dict) > 0:\n		for name, f := range dict {\n			ctx := f.Context()\n			v := f.cpy(context{field: ctx.field, parent: newC})\n			fields.set(name, v)\n		}\n	case arr != nil:\n		fields.a = make([]value, len(arr))\n		for i, f := range arr {\n			ctx := f.Context()\n			v := f.cpy(context{field: ctx.field, parent: newC})\n			fields.setAt(i, newC, v)\n		}\n	}\n", Expect: "R01f/"})
+	addControl(control{Prop: "C15", Name: "remove-moves-elementwise-with-slot-context", Rule: "R15b", Kind: "mutant", Quick: true,
+		File: "ucfg.go", Old: "	copy(a[i:], a[i+1:])\n	a[len(a)-1] = nil\n	f.a = a[:len(a)-1]\n\n	// the elements that moved down are known under their new index now\n	for j := i; j < len(f.a); j++ {\n		if v := f.a[j]; v != nil {\n			ctx := v.Context()\n			ctx.field = fmt.Sprintf(\"%d\", j)\n			v.SetContext(ctx)\n		}\n	}\n	return true", New: "	last := len(a) - 1\n	for j := i; j < last; j++ {\n		slot, moved := a[j], a[j+1]\n		if slot != nil && moved != nil {\n			moved.SetContext(slot.Context())\n		}\n		a[j] = moved\n	}\n	a[last] = nil\n	f.a = a[:last]\n	return true", Expect: "R15b/(*ucfg.fields).delAt/element moved"})
+	addControl(control{Prop: "C15", Name: "remove-moves-elementwise", Rule: "R15b", Kind: "refactor",
+		File: "ucfg.go", Old: "	copy(a[i:], a[i+1:])\n	a[len(a)-1] = nil\n	f.a = a[:len(a)-1]\n\n	// the elements that moved down are known under their new index now\n	for j := i; j < len(f.a); j++ {\n		if v := f.a[j]; v != nil {\n			ctx := v.Context()\n			ctx.field = fmt.Sprintf(\"%d\", j)\n			v.SetContext(ctx)\n		}\n	}\n	return true", New: "	last := len(a) - 1\n	for j := i; j < last; j++ {\n		moved := a[j+1]\n		if moved != nil {\n			ctx := moved.Context()\n			ctx.field = fmt.Sprintf(\"%d\", j)\n			moved.SetContext(ctx)\n		}\n		a[j] = moved\n	}\n	a[last] = nil\n	f.a = a[:last]\n	return true"})
+	addControl(control{Prop: "C04", Name: "default-validated-before-initdefaults", Rule: "R04g", Kind: "mutant", Quick: true,
+		File: "reify.go", Old: "		v := tryInitDefaults(pointerize(t, baseType, reflect.Zero(baseType)))\n", New: "		v0 := pointerize(t, baseType, reflect.Zero(baseType))\n		v := tryInitDefaults(v0)\n",
+		More: []edit{{"reify.go", "		base := chaseValuePointers(v)\n		if err := runValidators(base.Interface(), opts.validators); err != nil {\n			return reflect.Value{}, raiseValidation(ctx, meta, \"\", err)", "		base := chaseValuePointers(v0)\n		if err := runValidators(base.Interface(), opts.validators); err != nil {\n			return reflect.Value{}, raiseValidation(ctx, meta, \"\", err)"}},
+		Expect: "R04g/ucfg.reifyPrimitive"})
+	addControl(control{Prop: "C18", Name: "intermediate-node-takes-own-meta", Rule: "R18g", Kind: "mutant", Quick: true,
+		File: "path.go", Old: "		next.metadata = val.meta()\n		v := cfgSub{next}\n", New: "		v := cfgSub{next}\n		next.metadata = v.meta()\n", Expect: "R18g/"})
+	addControl(control{Prop: "C18", Name: "intermediate-node-meta-through-setter", Rule: "R18g", Kind: "refactor",
+		File: "path.go", Old: "		next.metadata = val.meta()\n		v := cfgSub{next}\n", New: "		v := cfgSub{next}\n		v.setMeta(val.meta())\n"})
+	addControl(control{Prop: "C12", Name: "intermediates-created-in-the-live-tree", Rule: "R12f", Kind: "mutant", Quick: true,
+		File: "path.go", Old: "	// 3. insert new sub-tree into config\n	return fields[0].SetValue(opt, node, val)", New: "	// 3. insert new sub-tree into config\n	if err := fields[0].SetValue(opt, node, val); err != nil {\n		return err\n	}\n	_, err := p.GetValue(cfg, opt)\n	return err", Expect: "R12f/"})
+	addControl(control{Prop: "C17", Name: "carriage-return-not-skipped", Rule: "R17h", Kind: "mutant", Quick: true,
+		File: "parse/parse.go", Old: "	p.input = strings.TrimLeftFunc(p.input, unicode.IsSpace)", New: "	p.input = strings.TrimLeft(p.input, \" \\t\\n\")\n	_ = unicode.IsSpace", Expect: "R17h/"})
 	addControl(control{Prop: "C05", Name: "tag-name-case-folded", Rule: "R05f", Kind: "mutant", Quick: true,
 		File: "util.go", Old: "	return s[0], opts\n}", New: "	return strings.ToLower(s[0]), opts\n}", Expect: "R05f/ucfg.parseTags"})
 	addControl(control{Prop: "C05", Name: "tag-name-in-local", Rule: "R05f", Kind: "refactor",
